@@ -27,17 +27,13 @@ func alphabet() []op {
 }
 
 func pairs(th bool) [][2]string {
-	ps := [][2]string{{"h", "h:5000"}, {"h", "https://h/v1/"}, {"https://h/v1/", "http://h"}, {"h:5000", "http://h"}}
-	if th {
-		ps = append(ps, [2]string{"h", "http://h"}, [2]string{"h:5000", "https://h/v1/"})
-	}
-	return ps
+	return [][2]string{{"h", "h:5000"}, {"h", "https://h/v1/"}, {"https://h/v1/", "http://h"}, {"h:5000", "http://h"}}
 }
 
 func seqJobs(th bool) []driver.Job {
-	depth := 4
+	depth, crashDepth := 4, 3
 	if th {
-		depth = 5
+		depth, crashDepth = 5, 4
 	}
 	var out []driver.Job
 	nsh := 4
@@ -52,7 +48,7 @@ func seqJobs(th bool) []driver.Job {
 				out = append(out, driver.Job{Name: name, Run: func(c *driver.Ctx) {
 					c.Explore(driver.Scenario{
 						Name: name, Sequential: true, Shard: sh, NShard: nsh,
-						Make: func() (func(), func(*vs.Result) *driver.Fail) { return seqRun(c, d, pair, depth) },
+						Make: func() (func(), func(*vs.Result) *driver.Fail) { return seqRun(c, d, pair, depth, crashDepth) },
 					})
 				}})
 			}
@@ -103,7 +99,7 @@ func mutKind(p *vos.Plan, k int) string {
 	return "?"
 }
 
-func seqRun(c *driver.Ctx, d *doc, pair [2]string, depth int) (func(), func(*vs.Result) *driver.Fail) {
+func seqRun(c *driver.Ctx, d *doc, pair [2]string, depth, crashDepth int) (func(), func(*vs.Result) *driver.Fail) {
 	var fail *driver.Fail
 	var hs string
 	ops := alphabet()
@@ -126,7 +122,7 @@ func seqRun(c *driver.Ctx, d *doc, pair [2]string, depth int) (func(), func(*vs.
 			names = append(names, o.str(pair))
 		}
 		hs = fmt.Sprintf("document %s (mode %o): %s\nhistory: %s", d.name, d.mode, clip(d.text), strings.Join(names, " ; "))
-		fail = seqCase(c, d, pair, hist, hs)
+		fail = seqCase(c, d, pair, hist, hs, len(hist) <= crashDepth)
 		if fail != nil {
 			fail.Detail = hs + "\n" + fail.Detail
 		}
@@ -142,7 +138,7 @@ func seqRun(c *driver.Ctx, d *doc, pair [2]string, depth int) (func(), func(*vs.
 	return body, check
 }
 
-func seqCase(c *driver.Ctx, d *doc, pair [2]string, hist []op, hs string) *driver.Fail {
+func seqCase(c *driver.Ctx, d *doc, pair [2]string, hist []op, hs string, crash bool) *driver.Fail {
 	dir, path := place(d)
 	defer os.RemoveAll(dir)
 	plan := &vos.Plan{KeepLog: true}
@@ -224,6 +220,10 @@ func seqCase(c *driver.Ctx, d *doc, pair [2]string, hist []op, hs string) *drive
 	}
 
 	// crash points of the last operation
+	if !crash {
+		return nil
+	}
+	c.Count("histories_with_crash_enumeration", 1)
 	for k := n0 + 1; k <= n1; k++ {
 		cp := &vos.Plan{CrashAt: k}
 		cdir, cpath := runHistory(d, pair, hist, cp)
